@@ -31,6 +31,7 @@ EXPLANATION = (
     " Round 4: (13) OPTCALL - get_cursor_coords / get_pref_col / move_cursor_to_coords / mouse_event are called on a child only under hasattr(child, method); (14) GridFlow: every store of a row's focus_position sets the latch the default-focus test reads; (15) an index is clamped to len-1 under `index >= len`."
     " Round-4 triage: (16) NONE-SENTINEL - optional parts are tested with `is (not) None`, never by truthiness; (3, extended) every writer of Frame.focus_part that can store 'header' / 'footer' tests that the part exists; (17) the position ListBox.set_focus() parks in set_focus_pending is handed back to the walker only under an IndexError/KeyError handler; (18) every attribute the synthetic contents reader of Overlay / Frame reports is stored by the contents writer. Round 5: (19) GridFlow copies the display widget's focus back on every path of mouse_event / move_cursor_to_coords; (20) Frame.render gives each part the focus flag conjoined with the test that this part is the focus part, also through a temporary Filler."
     ' Round 8: (24) KIND: an enumerate() index that becomes a focus position / contents index counts all children, not a filtered walk.'
+    ' Round-8 triage: (13) OPTCALL extended: a WidgetWrap subclass forwards an optional cursor method to the wrapped widget only under hasattr(self._w, .) (fix 3f5f19c).'
 )
 NOT_DECIDED = "Validity of the index after arbitrary edit histories (C16's arithmetic), the choice of the arrow-key target, which widgets are rendered with focus=True, ListBox focus bookkeeping."
 ASSUMPTIONS = []
